@@ -2,8 +2,9 @@
 #include "h.h"
 #include <Block.h>
 
-enum { SUB_ASYNC, SUB_SYNC, SUB_GROUP_ASYNC, SUB_DIRECT, SUB_BARRIER_ASYNC, SUB_N };
-static const char *const subnames[SUB_N] = { "dispatch_async", "dispatch_sync", "dispatch_group_async", "direct invocation", "dispatch_barrier_async" };
+enum { SUB_ASYNC, SUB_SYNC, SUB_GROUP_ASYNC, SUB_DIRECT, SUB_BARRIER_ASYNC, SUB_BARRIER_SYNC, SUB_AAW, SUB_AFTER, SUB_N };
+static const char *const subnames[SUB_N] = { "dispatch_async", "dispatch_sync", "dispatch_group_async", "direct invocation", "dispatch_barrier_async", "dispatch_barrier_sync", "dispatch_async_and_wait", "dispatch_after" };
+#define SUB_IS_SYNC(s) ((s) == SUB_SYNC || (s) == SUB_DIRECT || (s) == SUB_BARRIER_SYNC || (s) == SUB_AAW)
 enum { CM_NONE, CM_BEFORE_SUBMIT, CM_WHILE_GATED, CM_RANDOM, CM_FROM_BODY, CM_N };
 static const char *const cmnames[CM_N] = { "no cancel", "cancel before submit", "cancel while the block is queued behind a held item", "cancel at a random instant", "cancel from its own body" };
 
@@ -78,11 +79,14 @@ static void *submitter(void *arg) {
 	case SUB_SYNC: dispatch_sync(q, B.b); break;
 	case SUB_GROUP_ASYNC: dispatch_group_async(B.grp, q, B.b); break;
 	case SUB_DIRECT: B.b(); break;
+	case SUB_BARRIER_SYNC: dispatch_barrier_sync(q, B.b); break;
+	case SUB_AAW: dispatch_async_and_wait(q, B.b); break;
+	case SUB_AFTER: dispatch_after(dispatch_time(DISPATCH_TIME_NOW, (int64_t)((RC.seed >> 50 & 7) * 30000)), q, B.b); break;
 	}
 	B.submit_ret = h_stamp();
 	h_log("submit returned");
 	sim_event_signal(&B.submitted);
-	if ((B.sub == SUB_SYNC || B.sub == SUB_DIRECT) && B.body_count == 1 && !B.body_end)
+	if (SUB_IS_SYNC(B.sub) && B.body_count == 1 && !B.body_end)
 		h_viol("sync-return", "%s of a block object returned before its body finished", subnames[B.sub]);
 	if (B.cm == CM_WHILE_GATED) {
 		sim_point();
@@ -176,7 +180,7 @@ static void c19_run(void) {
 	B.flags_i = (int)g_n(8); B.qos_i = (int)g_n(3);
 	B.sub = (int)g_n(SUB_N); B.cm = (int)g_n(CM_N); B.qi = (int)g_n(3);
 	B.body_sleeps = (int)g_n(3);
-	if (B.cm == CM_WHILE_GATED) { B.qi = 1; if (B.sub == SUB_SYNC || B.sub == SUB_DIRECT) B.sub = SUB_ASYNC; }
+	if (B.cm == CM_WHILE_GATED) { B.qi = 1; if (SUB_IS_SYNC(B.sub) || B.sub == SUB_AFTER) B.sub = SUB_ASYNC; }
 	if (B.cm == CM_FROM_BODY && 0) B.cm = CM_NONE;
 	int have_waiter = g_chance(7, 10); B.nwaits = g_range(0, 4);
 	B.nn = g_range(0, 3);
